@@ -623,7 +623,8 @@ def replay_callback(a):
     mdl = a.get("model", {})
     x = mdl.get("x", 0) or 0
     if kind == "Number":
-        x = (mdl.get("x_lit", 0) or 0) % (1 << src[1])
+        xl = mdl.get("x_lit")
+        x = ((xl if xl is not None else x) or 0) % (1 << src[1])
     op = _real_operand(kind, src, value=x)
     values = {("x_nz", 8): 1 if x else 0, ("x_z", 8): 0} if kind in irkit.BOOL_KINDS else {("x", src[1]): int(x)}
     try:
